@@ -6,9 +6,9 @@ READY = True
 META = {
     "technique": "Lean 4 proof (block-stack driver with LoadBlocks / parent switch / depth cursor / BlockState::Replace / recursion-limit accounting refines a stack-free specification for every environment of the fragment and every fuel; termination, cycle, double-extends, missing-template, include and import theorems) + differential correspondence of the model with the real engine on enumerated and sampled template environments",
     "category": "proof",
-    "text": "Kernel-checked theorems about MJ/Model/Blocks.lean (transcription of LoadBlocks, the end-of-instructions parent switch, call_block incl. self.name() and required blocks, perform_super emitted and captured, perform_include, import/from-import codegen, loops, macro calls, variable frames, the undefined behaviour (printing / attribute access / iteration of undefined values per mode, tables regenerated from utils.rs and vm/mod.rs), the auto-escape mode (each template's initial mode as the default callback derives it from the name — extension table regenerated from defaults.rs; include/import switch to the included template's own mode and back, blocks / super() / macros / the parent layout reached through extends keep the current mode, {% autoescape %} blocks; write_escaped for Html with the regenerated escape table and for Json) and the recursion limit = outer_stack_depth + frames with INCLUDE_/MACRO_RECURSION_COST regenerated from the sources): blocks_refine_spec — for every environment whose templates are built from text, variables, set, macros, block tags, self.name(), super() (both also captured into variables), required blocks, conditional extends (executed or not, anything before/behind it), include (names, lists, ignore missing; included templates being inheritance chains of their own), import/from-import, loops and macro calls, with well-founded block nesting, and for every fuel, the stateful driver returns exactly the output or error chain of the specification (no block stacks, no cursor, no capture stack, no loaded set); corollaries block_renders_most_derived, super_goes_one_up, untouched_falls_through, child_text_discarded; render_block_most_derived / render_block_on_fresh_state (the State::render_block entry points), rendering_terminates (the recursion limit, not the model's fuel, bounds every nest; the driver runs with exactly the proven fuel), extends_terminates / cycle_is_detected_error, include_cycle_errors (include cycles end in BadInclude…InvalidOperation), double_extends_error, missing_is_error_not_truncation, include_first_existing, include_ignore_missing_forgives_only_missing (a template lookup has three outcomes — found / missing / load error of its own kind — and only `missing` lets the next candidate be tried or is forgiven by ignore missing), import_exports_toplevel, import_of_extending_template. The model is tied to /repo by rendering every generated environment (all 1- and 2-template block assignments exhaustively, sampled chains of up to 4 templates with include/import/self-call snippets at top level, in loops, macros and blocks, static/dynamic/conditional extends, captured super, required blocks, inheritance and include cycles, double extends, missing templates) with the real engine in supervised child processes (hang / stack overflow = failure) and comparing output or the exact error-kind chain with the Lean model; template names carry mixed extensions (.html .txt .json .xml .js .htm .yaml, with .j2/.jinja suffixes) and the variable values contain the characters the modes treat differently; the Lean specification itself is evaluated on every case inside the fragment, an independent substitution-style spec in Python is the oracle, and a metamorphic oracle checks for every case that a wrapper template of another mode that only includes t0 renders exactly what t0 renders on its own.",
+    "text": "Kernel-checked theorems about MJ/Model/Blocks.lean (transcription of LoadBlocks, the end-of-instructions parent switch, call_block incl. self.name() and required blocks, perform_super emitted and captured, perform_include, import/from-import codegen, loops, macro calls, variable frames, the undefined behaviour (printing / attribute access / iteration of undefined values per mode, tables regenerated from utils.rs and vm/mod.rs), the auto-escape mode (each template's initial mode as the default callback derives it from the name — extension table regenerated from defaults.rs; include/import switch to the included template's own mode and back, blocks / super() / macros / the parent layout reached through extends keep the current mode, {% autoescape %} blocks; write_escaped for Html with the regenerated escape table and for Json) and the recursion limit = outer_stack_depth + frames with INCLUDE_/MACRO_RECURSION_COST regenerated from the sources): blocks_refine_spec — for every environment whose templates are built from text, variables, set, macros, block tags, self.name(), super() (both also captured into variables), required blocks, conditional extends (executed or not, anything before/behind it), include (names, lists, ignore missing; included templates being inheritance chains of their own), import/from-import, loops and macro calls, with well-founded block nesting, and for every fuel, the stateful driver returns exactly the output or error chain of the specification (no block stacks, no cursor, no capture stack, no loaded set); corollaries block_renders_most_derived, super_goes_one_up, untouched_falls_through, child_text_discarded; render_block_most_derived / render_block_on_fresh_state (the State::render_block entry points), rendering_terminates (the recursion limit, not the model's fuel, bounds every nest; the driver runs with exactly the proven fuel), extends_terminates / cycle_is_detected_error, include_cycle_errors (include cycles end in BadInclude…InvalidOperation), double_extends_error, missing_is_error_not_truncation, include_first_existing, include_ignore_missing_forgives_only_missing (a template lookup has three outcomes — found / missing / load error of its own kind — and only `missing` lets the next candidate be tried or is forgiven by ignore missing), import_exports_toplevel, import_of_extending_template, include_keeps_closures_apart (macro closures: every frame has a closure slot, assignments write through to the frame's closure, macros look their free variables up in the closure they captured; an include runs the included file in the includer's frame with the closure detached — no closure that existed before the include is changed by anything the included file, its includes, imports or parents assign, the includer's closure is attached again afterwards, and nothing the includer assigns or encloses later reaches a closure the included file opened). The model is tied to /repo by rendering every generated environment (all 1- and 2-template block assignments exhaustively, sampled chains of up to 4 templates with include/import/self-call snippets at top level, in loops, macros and blocks, static/dynamic/conditional extends, captured super, required blocks, inheritance and include cycles, double extends, missing templates) with the real engine in supervised child processes (hang / stack overflow = failure) and comparing output or the exact error-kind chain with the Lean model; template names carry mixed extensions (.html .txt .json .xml .js .htm .yaml, with .j2/.jinja suffixes) and the variable values contain the characters the modes treat differently; the Lean specification itself is evaluated on every case inside the fragment, an independent substitution-style spec in Python is the oracle, and a metamorphic oracle checks for every case that a wrapper template of another mode that only includes t0 renders exactly what t0 renders on its own.",
     "design_ref": "DESIGN.md §3 C06",
-    "level_note": "Trusted: Lean kernel; hand transcription of vm/mod.rs (LoadBlocks, end of instructions, call_block, perform_super, perform_include, ExportLocals, macro calls), vm/state.rs (BlockStack, with_execution_state), vm/context.rs (depth accounting) and the Import/FromImport/Extends/Block code generation into MJ/Model/Blocks.lean, validated differentially (not proved) on ~1.6e4 (quick) / ~1.4e5 (thorough) environments; the pretty-printer from abstract templates to Jinja source in harness/src/bin/c06.rs. Outside the proven fragment (validated by the correspondence only): super() at the top level of an included template (the engine hands the includer's current block name into the include), an autoescape block directly inside another one, block references from a block to a lower-numbered block or from inside a macro, extends inside loops/macros/blocks, macro closures over enclosing locals. The specification threads variable frames exactly like the engine (it abstracts from the block machinery, not from variable scoping).",
+    "level_note": "Trusted: Lean kernel; hand transcription of vm/mod.rs (LoadBlocks, end of instructions, call_block, perform_super, perform_include, ExportLocals, macro calls), vm/state.rs (BlockStack, with_execution_state), vm/context.rs (depth accounting) and the Import/FromImport/Extends/Block code generation into MJ/Model/Blocks.lean, validated differentially (not proved) on ~1.6e4 (quick) / ~1.4e5 (thorough) environments; the pretty-printer from abstract templates to Jinja source in harness/src/bin/c06.rs. Outside the proven fragment (validated by the correspondence only): super() at the top level of an included template (the engine hands the includer's current block name into the include), an autoescape block directly inside another one, block references from a block to a lower-numbered block or from inside a macro, extends inside loops/macros/blocks, closures opened inside the body of a macro call (macros with parameters / nested macro definitions), the recursion cost of calling a closure macro. The specification threads variable frames exactly like the engine (it abstracts from the block machinery, not from variable scoping).",
 }
 
 LIMIT = 60  # nesting bound of the Python spec (only cycles reach it)
@@ -53,6 +53,8 @@ class Toks:
             return ("set", self.num(), self.next())
         if k == "mac":
             return ("mac", self.num(), self.next())
+        if k == "macv":
+            return ("macv", self.num(), self.num())
         if k == "imp":
             return ("imp", self.num(), self.num())
         if k == "from":
@@ -162,8 +164,16 @@ class Spec:
         self.env = env
         self.ub = ub          # 0 lenient, 1 chainable, 2 semi-strict, 3 strict
         self.main_defs = None
+        self.heap = []        # the closures of the render: one per file / frame that declared a macro with free variables
         self.root_ctx = {0: ("str", V0)}
         self.mode = "none"  # the current auto-escape mode
+
+    def assign(self, scopes, name, val):
+        """a `set` / macro definition / import target: into the current scope and, when macros with
+        free variables were declared in this scope *by this file*, into their closure as well"""
+        scopes[-1][name] = val
+        if "__c" in scopes[-1]:
+            self.heap[scopes[-1]["__c"]][name] = val
 
     def lookup(self, scopes, v):
         for sc in reversed(scopes):
@@ -274,10 +284,17 @@ class Spec:
             if t < len(self.env):
                 # the included template renders as it would on its own: in the mode of its name
                 saved, self.mode = self.mode, self.env[t][2]
+                # closures are per file: the included file neither writes into the includer's
+                # closure nor shares it for its own macros
+                mine = scopes[-1].pop("__c", None) if scopes else None
                 try:
                     return self.template(t, scopes, silent, depth + 1)
                 finally:
                     self.mode = saved
+                    if scopes:
+                        scopes[-1].pop("__c", None)
+                        if mine is not None:
+                            scopes[-1]["__c"] = mine
             missing = True
         if missing and not ign:
             raise SpecErr("TemplateNotFound")
@@ -317,19 +334,33 @@ class Spec:
                 return say(fmt(self.mode, "<macro v%d>" % v[1]))
             raise NotImplementedError
         if k == "set":
-            scopes[-1][it[1]] = ("str", it[2])
+            self.assign(scopes, it[1], ("str", it[2]))
             return []
         if k == "mac":
-            scopes[-1][it[1]] = ("mac", it[1], it[2])
+            self.assign(scopes, it[1], ("mac", it[1], it[2]))
+            return []
+        if k == "macv":
+            # a macro with the free variable it[2]: the scope's closure (one per file and scope) is
+            # opened on first use and holds the variable's value as of now; later assignments in
+            # this scope by this file update it
+            top = scopes[-1]
+            if "__c" not in top:
+                top["__c"] = len(self.heap)
+                self.heap.append({})
+            c = top["__c"]
+            if it[2] not in self.heap[c]:
+                v = self.lookup(scopes, it[2])
+                self.heap[c][it[2]] = UNDEF if v is None else v
+            self.assign(scopes, it[1], ("macv", it[1], it[2], c))
             return []
         if k == "imp":
             scopes.append({})
             try:
                 self.include([it[1]], False, scopes, False, depth)
-                exports = dict(scopes[-1])
+                exports = {k: v for k, v in scopes[-1].items() if k != "__c"}
             finally:
                 scopes.pop()
-            scopes[-1][it[2]] = ("module", exports)
+            self.assign(scopes, it[2], ("module", exports))
             return []
         if k == "from":
             scopes.append({})
@@ -338,7 +369,7 @@ class Spec:
                 val = scopes[-1].get(it[2], UNDEF)
             finally:
                 scopes.pop()
-            scopes[-1][it[3]] = val
+            self.assign(scopes, it[3], val)
             return []
         if k == "bad":
             raise SpecErr("InvalidOperation")  # template name is not a string
@@ -371,6 +402,17 @@ class Spec:
             v = self.lookup(scopes, it[1])
             if v is None:
                 raise SpecErr("UnknownFunction")
+            if v != UNDEF and v[0] == "macv":
+                val = self.heap[v[3]].get(v[2], UNDEF)
+                if val == UNDEF:
+                    inner = "".join(self.undef(lambda x: [x]))
+                elif val[0] == "str":
+                    inner = fmt(self.mode, val[1])
+                elif val[0] == "safe":
+                    inner = val[1]
+                else:
+                    raise NotImplementedError
+                return say("<m%d:%s>" % (v[1], inner))
             if v == UNDEF or v[0] in ("str", "safe"):
                 raise SpecErr("InvalidOperation")  # not callable
             if v[0] != "mac":
@@ -386,23 +428,26 @@ class Spec:
             if lvl + 1 >= len(defs.get(n, [])):
                 raise SpecErr("InvalidOperation")
             txt = "".join(self.body(defs, n, lvl + 1, scopes, False, depth + 1))
-            scopes[-1][it[1]] = self.captured(txt)
+            self.assign(scopes, it[1], self.captured(txt))
             return []
         if k == "sself":
             # captured self.block(): skipped only while a parent is pending
             if extending:
-                scopes[-1][it[1]] = self.captured("")
+                self.assign(scopes, it[1], self.captured(""))
                 return []
             txt = "".join(self.block(defs, it[2], scopes, False, depth))
-            scopes[-1][it[1]] = self.captured(txt)
+            self.assign(scopes, it[1], self.captured(txt))
             return []
         if k == "for":
             out = []
             scopes.append({})
             try:
                 for val in it[2]:
-                    scopes[-1].clear()
-                    scopes[-1][it[1]] = ("str", val)
+                    keep = scopes[-1].get("__c")
+                    scopes[-1].clear()      # the loop frame's locals are cleared, its closure stays
+                    if keep is not None:
+                        scopes[-1]["__c"] = keep
+                    self.assign(scopes, it[1], ("str", val))
                     for sub in it[3]:
                         if sub[0] == "extends":
                             raise NotImplementedError
@@ -422,7 +467,7 @@ class Spec:
             finally:
                 self.mode = saved
         if k == "inmac":
-            scopes[-1][it[1]] = ("opaque",)
+            self.assign(scopes, it[1], ("opaque",))
             inner = [{it[2]: ("str", it[3])}]
             out = []
             for sub in it[4]:
@@ -523,7 +568,7 @@ def run(r):
     r.rule = ("templates named t<i>.<ext> with mixed extensions; every assignment of {absent, override, super-before, super-after} to 3 blocks (one nestable) for chains of 1 and 2 "
               "templates (exhaustive), seeded random chains of 1..4 templates with static/dynamic/conditional extends, the same "
               "with 1-2 include/import/self-call snippets (30 kinds) at top level / in blocks / loops / macros, plus enumerated auto-escape mode crossings (includer x included x placement x include/import/from-import, child x parent for extends/super), inheritance "
-              "cycles, include cycles, double extends, missing templates, templates that exist but cannot be loaded (syntax errors, loader errors; from include lists at every position, extends, import, from-import, through chains, as the rendered template) and non-string template names; every case carries an environment configuration (add_template vs loader-backed, default vs custom delimiters, plain names vs directories + path-join callback with relative references, undefined behaviour lenient/chainable/semi-strict/strict) and is rendered through three entry points (Template::render, render_captured + State::render_block, new_state + render_block); a case is non-trivial when it executes an extends, "
+              "cycles, include cycles, double extends, missing templates, macro closures across composition (macros with a free variable declared before / after include, import and from-import tags, the variable reassigned on both sides, libraries split over two files, macros through extends), templates that exist but cannot be loaded (syntax errors, loader errors; from include lists at every position, extends, import, from-import, through chains, as the rendered template) and non-string template names; every case carries an environment configuration (add_template vs loader-backed, default vs custom delimiters, plain names vs directories + path-join callback with relative references, undefined behaviour lenient/chainable/semi-strict/strict) and is rendered through three entry points (Template::render, render_captured + State::render_block, new_state + render_block); a case is non-trivial when it executes an extends, "
               "include or import")
     r.assumptions = [
         "template/block/variable names are the harness' canonical t<i>.<ext> (optionally in directories d<k>/ with relative references resolved by the documentation's path-join callback) / b<n> / v<n>",
